@@ -905,7 +905,7 @@ func (s *QueueStats) UnmarshalBinary(data []byte) error {
 	s.PortNo = binary.BigEndian.Uint16(data[n:])
 	n += 2
 	copy(s.pad, data[n:])
-	n += len(s.pad)
+	n += 2
 	s.QueueId = binary.BigEndian.Uint32(data[n:])
 	n += 4
 	s.TxBytes = binary.BigEndian.Uint64(data[n:])
